@@ -183,6 +183,8 @@ func runSvcChunk(r *h.Result, scs []*scenario, base int, judge func(*h.Result, *
 		r.CountN("svc:connect-fail", res.stats["connect-fail"])
 		r.CountN("svc:silent-iteration", res.stats["silent-iteration"])
 		r.CountN("svc:stop", res.stats["stop"])
+		r.CountN("svc:watchdog-ping", res.stats["ping"])
+		r.CountN("svc:watchdog-ping-failed-client-dropped", res.stats["ping-fail"])
 		if nonRect {
 			r.Count("svc:with-malformed-request")
 		}
@@ -675,6 +677,16 @@ func c01(r *h.Result, rng *h.Rng, tier string, replay string) error {
 	var rep *scenario
 	if replay != "" {
 		rep = loadReplayScenario(replay)
+		if rep == nil {
+			if doc := loadReplayDoc(replay); doc != nil {
+				switch doc["stream"] {
+				case "handler-errtext":
+					return c01ReplayErrText(r, rng.Fork(), doc)
+				case "lock-probe":
+					return c02ReplayProbe(r, rng.Fork(), doc, "C01/")
+				}
+			}
+		}
 	}
 	nScen, maxOps, connFail, nRetry, nSeq := 300, 40, 16, 400, 40
 	if tier == "thorough" || tier == "search" {
@@ -692,6 +704,34 @@ func c01(r *h.Result, rng *h.Rng, tier string, replay string) error {
 		return err
 	}
 	if err := c01HandlerSeq(r, rng.Fork(), nSeq); err != nil {
+		return err
+	}
+	nTxt, nCls, nHE := 300, 800, 40
+	if tier != "quick" {
+		nTxt, nCls, nHE = 4000, 12000, 400
+	}
+	if err := c01RetryText(r, rng.Fork(), nTxt); err != nil {
+		return err
+	}
+	if err := c01Classify(r, rng.Fork(), nCls); err != nil {
+		return err
+	}
+	if err := c01HandlerErrText(r, rng.Fork(), nHE, nil); err != nil {
+		return err
+	}
+	nPS, nPC := 300, 400
+	if tier != "quick" {
+		nPS, nPC = 5000, 20000
+	}
+	if err := c01PromiseSeq(r, rng.Fork(), nPS); err != nil {
+		return err
+	}
+	c01PromiseConc(r, rng.Fork(), nPC)
+	nProbe := 6
+	if tier != "quick" {
+		nProbe = 48
+	}
+	if err := c02LockProbe(r, rng.Fork(), nProbe, 120, "C01/"); err != nil {
 		return err
 	}
 	if tier == "quick" {
